@@ -108,14 +108,14 @@ func pad512(c string) []byte {
 	return b
 }
 
-var coqKind = map[string]string{"bytes": "FBytes", "path": "FPath", "seekcloser": "FSeekNoClose", "reader": "FSeekReader", "buffer": "FPlainReader", "osfile": "FOsFile"}
+var coqKind = map[string]string{"bytes": "FBytes", "path": "FPath", "seekcloser": "FSeekNoClose", "reader": "FSeekReader", "buffer": "FPlainReader", "customseek": "FCustomSeek", "customplain": "FCustomPlain", "osfile": "FOsFile"}
 
 // coqUpload renders a multipart program as an UploadCase: the request-level form fields, the
 // file sources, the content-type oracle table, and per attempt the parts seen on the wire
 // (fields sorted by name, then the file parts in order).
 func coqUpload(p *program, o *observation) (string, bool) {
 	sh := &p.Shape
-	if p.payloadForbidden() || len(o.Wires) == 0 {
+	if (p.payloadForbidden() || len(o.Wires) == 0) && !o.UpFront {
 		return "", false
 	}
 	var files, tab []string
@@ -138,11 +138,13 @@ func coqUpload(p *program, o *observation) (string, bool) {
 		if vs := w.Header["Content-Type"]; len(vs) == 1 {
 			ct = vs[0]
 		}
-		obs = append(obs, coqParts(ct, w.Body))
+		obs = append(obs, hk.CoqPair(coqParts(ct, w.Body), hk.CoqBool(!w.BodyErr)))
 	}
 	// a retry was counted (RetryAttempt) that never reached the wire: the retry was refused
-	failed := o.Attempt == len(o.Wires)
-	return fmt.Sprintf("UploadCase %s %s %s %s %s %s", coqAmap(sh.CForm), coqAmap(sh.RForm), hk.CoqList(files), hk.CoqList(tab), hk.CoqList(obs), hk.CoqBool(failed)), true
+	failed := !o.UpFront && o.Attempt == len(o.Wires)
+	e := effectiveOf(p)
+	return fmt.Sprintf("UploadCase %s %s %s %s %s %s %s %s %s", hk.CoqBool(e.Has && e.N != 0), hk.CoqBool(sh.Chunked), coqAmap(sh.CForm), coqAmap(sh.RForm),
+		hk.CoqList(files), hk.CoqList(tab), hk.CoqList(obs), hk.CoqBool(failed), hk.CoqBool(o.UpFront)), true
 }
 
 func coqParts(ct, body string) string {
